@@ -53,6 +53,9 @@ def run(R):
     R.rule("C08-R5", "budget failures propagate below the controller: in every helper of hybrid.rs that itself returns a Result with a "
                      "budget / compile / reason error, the failure edge of a budgeted step never leads to an Ok return (a partial "
                      "compilation must not be handed up as if it were complete - callers add its value to certified bounds)")
+    R.rule("C08-R6", "search states are not pruned by a partial key: in enumerate_proofs a state taken from the frontier may be dropped through "
+                     "a seen-set only if the key covers both what the state has proved so far and what it still has to prove (proof and "
+                     "pending) - two states at the same lineage node with the same partial proof can still differ in their remaining conjuncts")
     R.rule("C08-R2", "failures stop at NeedsExact: from the error edge of every budgeted/fallible step no certified result "
                      "(Exact/Bounded/LowerBound) is reachable except through the success edge of the exact compilation; "
                      "swallowed failures only feed metrics")
@@ -63,6 +66,7 @@ def run(R):
     bodies = [b for b in prog.bodies.values() if b.crate == "shared" and b.file.endswith("hybrid.rs") and not is_test(b) and not b.derived]
     r4(R, bodies)
     r5(R)
+    r6(R)
     # ---- R1
     nsites = ncert = 0
     for b in sorted(bodies, key=lambda x: x.key):
@@ -255,6 +259,61 @@ def r5(R, rule="C08-R5", file_suffix="hybrid.rs", err_types=None, floor=5):
                  detail=None if not bad else "an Ok value is built on a path from the failure edge: the caller treats a partial result (e.g. the count "
                  "of only the proofs compiled before the deadline) as complete and publishes bounds that exclude the true probability")
     R.floor(rule, "budgeted steps inside Result-returning helpers", n, floor)
+
+
+def r6(R):
+    from lib import pipeline as P
+    prog = R.prog
+    ep = R.body("C08-R6", "hybrid::enumerate_proofs", crate="shared")
+    if ep is None:
+        return
+    R.saw(ep)
+    n = 0
+    fam = prog.family(ep.key)
+    for x in fam:
+        for c in x.calls():
+            if c.name() != "insert" or len(c.args) != 2 or not any(k in (c.pretty or "") for k in ("HashSet", "BTreeSet")):
+                continue
+            # used as a filter: its boolean decides a branch
+            used = any(t["t"] == "switch" and F.op_local(t["discr"]) is not None and x.alias_root(t["discr"]) == c.dest["l"] for bb, t in x.terms())
+            if not used:
+                for bb, i, pl, rv, st in x.assigns():
+                    if rv["rv"] == "unop" and rv["op"] == "Not" and F.op_place(rv["a"]) is not None and F.op_place(rv["a"])["l"] == c.dest["l"]:
+                        used = True
+            if not used:
+                continue
+            n += 1
+            der = P.derives(prog, x, F.op_place(c.args[1])["l"], at_bb=c.bb) if F.op_place(c.args[1]) is not None else set()
+            # fields of the search state that reach the key
+            flds = set()
+            kl = F.op_place(c.args[1])
+            seen = set()
+            work = [kl["l"]] if kl is not None else []
+            while work:
+                l = work.pop()
+                if l in seen:
+                    continue
+                seen.add(l)
+                for d in x.defs().get(l, []):
+                    ops = []
+                    if d[0] in ("assign", "partial"):
+                        ops = [p2 for p2, k2 in F.rv_places(d[3])]
+                    elif d[0] in ("call", "partial_call"):
+                        # only whole-value steps: an element popped / looked up from a field does not stand for the field
+                        if d[2].name() in ("clone", "deref", "to_vec", "as_slice", "as_ref", "borrow", "iter", "into_iter", "cloned", "copied", "collect",
+                                           "to_owned", "into", "from", "sorted", "as_mut", "deref_mut"):
+                            ops = [F.op_place(a) for a in d[2].args if F.op_place(a) is not None]
+                    for p2 in ops:
+                        for e in p2["p"]:
+                            if e["k"] == "field" and (e.get("adt") or "").endswith("ProofSearchState"):
+                                flds.add(e["n"])
+                        work.append(p2["l"])
+            state_key = bool(flds)
+            ok = (not state_key) or {"proof", "pending"} <= flds
+            R.ob("C08-R6", "key:%d" % n, "a seen-set that filters search states is keyed on the whole state (state fields in the key: %s)" % sorted(flds), ok,
+                 where=x.where(c.ln), detail=None if ok else "states that differ only in their remaining conjuncts are merged: proofs reachable from the dropped "
+                 "state disappear from both the emitted set and the frontier, the enumeration looks exhausted and an `exact` probability that is too small is certified")
+    R.ob("C08-R6", "sites", "seen-set filters in enumerate_proofs examined (%d)" % n, True, where=ep.where())
 
 
 def _value_call(b, op, depth=0):
